@@ -24,10 +24,14 @@ type verifC18Call struct {
 }
 
 // verifC18Scenario: the symbolic query grid and the samples of one series cut into record batches.
-func verifC18Scenario() (recs [][]int64, all []int64, start, end, step, width int64) {
+func verifC18Scenario(gaps bool) (recs [][]int64, all []int64, start, end, step, width int64) {
 	tier := int64(verifrt.Tier())
 	nrec := 2 + verifrt.Choose("batches", 1+verifrt.Tier())
-	step = []int64{1, 2, 4, 3}[verifrt.Choose("step", 3+verifrt.Tier())] // 4 > range leaves gaps between the windows; 3 (division by 3) only in the thorough tier
+	nstep := 2 + 2*verifrt.Tier() // quick: steps 1, 2; thorough: also 4 and 3
+	if gaps && nstep < 3 {
+		nstep = 3 // step 4 > range leaves gaps between the windows
+	}
+	step = []int64{1, 2, 4, 3}[verifrt.Choose("step", nstep)]
 	width = verifrt.Int64("range")
 	verifrt.Assume(width >= 1 && width < 4+4*tier)
 	// realistic instants: nanoseconds far from 1970 (populateByLast compares a buffer index with a
@@ -89,7 +93,7 @@ func verifC18Drive(reducer Reducer, recs [][]int64, start, end, step, width int6
 // are cut into batches. The function applied to the window is a recorder, so only sample selection is
 // checked here (the arithmetic is VerifC18RateExtrapolation).
 func VerifC18RecordBatches() {
-	recs, all, start, end, step, width := verifC18Scenario()
+	recs, all, start, end, step, width := verifC18Scenario(false)
 	const base = int64(1700000000) * 1000000000
 	var calls []verifC18Call
 	fm := func(prevT, currT []int64, prevV, currV []float64, ts int64, count int, param *ReducerParams) (float64, bool) {
@@ -137,7 +141,7 @@ func VerifC18RecordBatches() {
 // samples": every evaluation step whose window holds samples yields one output point, in step order, whose
 // value is the number of samples with step-range <= t <= step - however the samples are cut into batches.
 func VerifC18RecordBatchesInc() {
-	recs, all, start, end, step, width := verifC18Scenario()
+	recs, all, start, end, step, width := verifC18Scenario(true)
 	fr := func(times []int64, values []float64, s, e int) (int64, float64, bool) {
 		if s >= e {
 			return 0, 0, true
@@ -173,7 +177,7 @@ func VerifC18RecordBatchesInc() {
 // least two samples is evaluated once, in step order, on the last two samples of its window; a window with
 // fewer than two samples yields nothing.
 func VerifC18RecordBatchesLastTwo() {
-	recs, all, start, end, step, width := verifC18Scenario()
+	recs, all, start, end, step, width := verifC18Scenario(false)
 	type call struct{ ts, prev, last int64 }
 	var calls []call
 	fm := func(prevTime, lastTime int64, prevValue, lastValue float64, ts int64, pointCount int, param *ReducerParams) (float64, bool) {
